@@ -1,41 +1,10 @@
-mod fw;
-mod gen;
-mod gen_mesh;
-mod oracle;
-mod props;
-
-use fw::{Opts, Tier};
+use verif_engine::dispatch;
+use verif_engine::fw::{Opts, Tier};
 use std::path::PathBuf;
 
-macro_rules! dispatch {
-    ($id:expr, $f:ident, $($arg:expr),*) => {
-        match $id {
-            "C01" => fw::$f::<props::c01::C01>($($arg),*),
-            "C02" => fw::$f::<props::c02::C02>($($arg),*),
-            "C03" => fw::$f::<props::c03::C03>($($arg),*),
-            "C04" => fw::$f::<props::c04::C04>($($arg),*),
-            "C05" => fw::$f::<props::c05::C05>($($arg),*),
-            "C06" => fw::$f::<props::c06::C06>($($arg),*),
-            "C07" => fw::$f::<props::c07::C07>($($arg),*),
-            "C08" => fw::$f::<props::c08::C08>($($arg),*),
-            "C09" => fw::$f::<props::c09::C09>($($arg),*),
-            "C10" => fw::$f::<props::c10::C10>($($arg),*),
-            "C11" => fw::$f::<props::c11::C11>($($arg),*),
-            "C12" => fw::$f::<props::c12::C12>($($arg),*),
-            "C13" => fw::$f::<props::c13::C13>($($arg),*),
-            "C14" => fw::$f::<props::c14::C14>($($arg),*),
-            "C15" => fw::$f::<props::c15::C15>($($arg),*),
-            "C16" => fw::$f::<props::c16::C16>($($arg),*),
-            "C17" => fw::$f::<props::c17::C17>($($arg),*),
-            "C18" => fw::$f::<props::c18::C18>($($arg),*),
-            "C19" => fw::$f::<props::c19::C19>($($arg),*),
-            "C20" => fw::$f::<props::c20::C20>($($arg),*),
-            other => {
-                eprintln!("unknown property {other}");
-                2
-            }
-        }
-    };
+fn unknown(id: &str) -> i32 {
+    eprintln!("unknown property {id}");
+    2
 }
 
 fn usage() -> i32 {
@@ -73,14 +42,19 @@ fn main() {
                 }
                 i += 1;
             }
-            dispatch!(id, run, &opts)
+            dispatch!(id, run, unknown(id), &opts)
         }
         "replay" => {
             let Some(p) = args.get(3) else { std::process::exit(usage()) };
             let p = PathBuf::from(p);
-            dispatch!(id, replay, &p)
+            dispatch!(id, replay, unknown(id), &p)
         }
-        "worker" => dispatch!(id, worker_main,),
+        "frombytes" => {
+            let Some(p) = args.get(3) else { std::process::exit(usage()) };
+            let p = PathBuf::from(p);
+            dispatch!(id, from_bytes, unknown(id), &p)
+        }
+        "worker" => dispatch!(id, worker_main, unknown(id),),
         _ => usage(),
     };
     std::process::exit(code);
